@@ -8,7 +8,9 @@ one() {
   W=/var/tmp/verif-seedrun/$id; rm -rf $W; mkdir -p $W
   rsync -a --exclude /target --exclude /website /repo/ $W/repo/
   how=clean
-  if ! git -C $W/repo apply /verif/seeded/$id/patch.diff 2>/dev/null; then
+  if [ -f /verif/seeded/$id/patch_on_repaired_tree.diff ] && git -C $W/repo apply /verif/seeded/$id/patch_on_repaired_tree.diff 2>/dev/null; then
+    how=repaired-tree-variant
+  elif ! git -C $W/repo apply /verif/seeded/$id/patch.diff 2>/dev/null; then
     how=3way
     git -C $W/repo apply --3way /verif/seeded/$id/patch.diff >/dev/null 2>&1 || how=conflict
   fi
